@@ -17,26 +17,32 @@
 (*   <<"cnt", w>>   fetch a w-byte count C, then C one-byte elements       *)
 (*   <<"opt">>      stop successfully if no input remains (an optional     *)
 (*                  trailing section = "older version complete")           *)
+(*   <<"tag">>      fetch a one-byte type code and dispatch on it: a code   *)
+(*                  outside the registry TagCodes has no decoder => failed *)
 (***************************************************************************)
 EXTENDS Bytes
 
 CONSTANTS Slot,      \* bytes a decoder may allocate per announced element
           K, C,      \* the memory bound: alloc <= K * n + C
-          ZeroFill   \* FALSE: the design above.  TRUE: the design golib had before the
+          ZeroFill,  \* FALSE: the design above.  TRUE: the design golib had before the
                      \* repair (a short read is padded with zeros and decoding goes on) --
                      \* kept as a named deviation so TLC can show what it breaks
+          TagCodes,  \* the registry of the abstract decoders' type tag
+          LenientTags \* FALSE: the design.  TRUE (named deviation): a code outside the registry
+                     \* is passed over (nil object / nothing read) and decoding goes on
 
 VARIABLES input,     \* the bytes given to the decoder
           prog,      \* remaining instructions of the abstract decoder
           cursor,    \* bytes consumed so far
           alloc,     \* bytes allocated so far
           outcome,   \* "running" | "ok" | "failed"
-          got        \* sequence of <<position, bytes>> returned by fetches
-vars == <<input, prog, cursor, alloc, outcome, got>>
+          got,       \* sequence of <<position, bytes>> returned by fetches
+          tags       \* the type codes dispatched on so far
+vars == <<input, prog, cursor, alloc, outcome, got, tags>>
 
 n == Len(input)
 
-Fail == outcome' = "failed" /\ UNCHANGED <<input, prog, cursor, alloc, got>>
+Fail == outcome' = "failed" /\ UNCHANGED <<input, prog, cursor, alloc, got, tags>>
 
 \* the single fetch routine: request k bytes at the cursor
 FetchOK(k) == k >= 0 /\ cursor + k <= n
@@ -46,11 +52,11 @@ StepFix(k, rest) ==
   IF FetchOK(k)
   THEN /\ got' = Append(got, <<cursor, Fetched(k)>>)
        /\ cursor' = cursor + k /\ alloc' = alloc + k
-       /\ prog' = rest /\ UNCHANGED <<input, outcome>>
+       /\ prog' = rest /\ UNCHANGED <<input, outcome, tags>>
   ELSE IF ZeroFill /\ k >= 0
   THEN /\ got' = Append(got, <<cursor, [i \in 1..k |-> IF cursor + i <= n THEN input[cursor + i] ELSE 0]>>)
        /\ cursor' = cursor + k /\ alloc' = alloc + k
-       /\ prog' = rest /\ UNCHANGED <<input, outcome>>
+       /\ prog' = rest /\ UNCHANGED <<input, outcome, tags>>
   ELSE Fail
 
 StepLen(w, rest) ==
@@ -59,7 +65,7 @@ StepLen(w, rest) ==
        IF cursor + w + L <= n                      \* check before allocate
        THEN /\ got' = got \o << <<cursor, Fetched(w)>>, <<cursor + w, Slice(input, cursor + w + 1, L)>> >>
             /\ cursor' = cursor + w + L /\ alloc' = alloc + w + L
-            /\ prog' = rest /\ UNCHANGED <<input, outcome>>
+            /\ prog' = rest /\ UNCHANGED <<input, outcome, tags>>
        ELSE Fail
 
 StepCnt(w, rest) ==
@@ -69,19 +75,29 @@ StepCnt(w, rest) ==
        THEN /\ got' = Append(got, <<cursor, Fetched(w)>>)
             /\ cursor' = cursor + w /\ alloc' = alloc + w + Cn * Slot
             /\ prog' = [i \in 1..Cn |-> <<"fix", 1>>] \o rest
-            /\ UNCHANGED <<input, outcome>>
+            /\ UNCHANGED <<input, outcome, tags>>
+       ELSE Fail
+
+StepTag(rest) ==
+  IF ~FetchOK(1) THEN Fail
+  ELSE LET code == input[cursor + 1] IN
+       IF code \in TagCodes \/ LenientTags
+       THEN /\ got' = Append(got, <<cursor, Fetched(1)>>) /\ tags' = Append(tags, code)
+            /\ cursor' = cursor + 1 /\ alloc' = alloc + 1
+            /\ prog' = rest /\ UNCHANGED <<input, outcome>>
        ELSE Fail
 
 Step ==
   /\ outcome = "running"
-  /\ IF prog = <<>> THEN outcome' = "ok" /\ UNCHANGED <<input, prog, cursor, alloc, got>>
+  /\ IF prog = <<>> THEN outcome' = "ok" /\ UNCHANGED <<input, prog, cursor, alloc, got, tags>>
      ELSE LET ins == Head(prog) rest == Tail(prog) IN
           CASE ins[1] = "fix" -> StepFix(ins[2], rest)
             [] ins[1] = "len" -> StepLen(ins[2], rest)
             [] ins[1] = "cnt" -> StepCnt(ins[2], rest)
+            [] ins[1] = "tag" -> StepTag(rest)
             [] ins[1] = "opt" -> IF cursor = n
-                                 THEN outcome' = "ok" /\ UNCHANGED <<input, prog, cursor, alloc, got>>
-                                 ELSE prog' = rest /\ UNCHANGED <<input, cursor, alloc, outcome, got>>
+                                 THEN outcome' = "ok" /\ UNCHANGED <<input, prog, cursor, alloc, got, tags>>
+                                 ELSE prog' = rest /\ UNCHANGED <<input, cursor, alloc, outcome, got, tags>>
 
 \* ---- properties ---------------------------------------------------------
 \* every byte of every returned slice is the input byte at the position it was fetched from
@@ -93,6 +109,8 @@ NoFabrication == \A i \in 1..Len(got) :
 WithinInput == cursor <= n
 \* memory proportional to the input, not to announced lengths
 BoundedAlloc == alloc <= K * n + C
+\* a decode never goes on past a type code it has no decoder for
+TagsKnown == \A i \in 1..Len(tags) : tags[i] \in TagCodes
 
 (***************************************************************************)
 (* The observable summary of one real decode run (what a trace event       *)
